@@ -220,6 +220,11 @@ class Exec:
         self.trace = self.opts.get('trace', False)
         self.init_mode = False
         self.sat_cache = {}
+        self.bv_cache = {}
+        self.probe_bv = z3.Probe('is-qfbv')
+        self.inc = z3.Solver()
+        self.inc_stack = []
+        self._last_model = None
 
     # ------------------------------------------------------------------ types
     def T(self, i):
@@ -432,6 +437,61 @@ class Exec:
                 slots[off + j] = self.ite(g, v, slots[off + j], self.leaf_of(ptr.obj, off + j))
 
     # ------------------------------------------------------------------ solver
+    def is_bv(self, c):
+        """is constraint c pure QF_BV (no floating point, arrays, UFs)?"""
+        k = c.get_id()
+        r = self.bv_cache.get(k)
+        if r is None:
+            g = z3.Goal()
+            g.add(c)
+            r = bool(self.probe_bv(g))
+            self.bv_cache[k] = r
+        return r
+
+    def solve_raw(self, pc, extra):
+        """one solver query; returns (result, model). Pure bit-vector queries
+        go to a live incremental solver whose assertion stack mirrors the path
+        condition; anything with floating point gets a fresh solver (z3's
+        incremental FP path is unreliable, see DESIGN section 5)."""
+        t0 = time.time()
+        self.res.solver_calls += 1
+        allbv = all(self.is_bv(c) for c in pc) and (extra is None or self.is_bv(extra))
+        if allbv:
+            ids = [c.get_id() for c in pc]
+            stack = self.inc_stack
+            n = 0
+            while n < len(stack) and n < len(ids) and stack[n] == ids[n]:
+                n += 1
+            while len(stack) > n:
+                self.inc.pop()
+                stack.pop()
+            for c in pc[n:]:
+                self.inc.push()
+                self.inc.add(c)
+                stack.append(c.get_id())
+            if extra is not None:
+                self.inc.push()
+                self.inc.add(extra)
+            r = self.inc.check()
+            m = self.inc.model() if r == z3.sat else None
+            if extra is not None:
+                self.inc.pop()
+        else:
+            s = z3.Solver()
+            s.set('timeout', self.feas_timeout)
+            for c in pc:
+                s.add(c)
+            if extra is not None:
+                s.add(extra)
+            r = s.check()
+            m = s.model() if r == z3.sat else None
+        self.res.solver_time += time.time() - t0
+        if r == z3.sat:
+            return 'sat', m
+        if r == z3.unsat:
+            return 'unsat', None
+        return 'unknown', None
+
     def sat(self, st, extra=None, want_model=False):
         """feasibility of st.pc (+ extra). returns 'sat' / 'unsat' / 'unknown'."""
         if extra is not None and isinstance(extra, bool):
@@ -444,27 +504,16 @@ class Exec:
                     return 'sat'
                 v = st.model.eval(extra, model_completion=True)
                 if z3.is_true(v):
+                    self._last_model = st.model
                     return 'sat'
             except z3.Z3Exception:
                 pass
-        s = z3.Solver()
-        s.set('timeout', self.feas_timeout)
-        for c in st.pc:
-            s.add(c)
-        if extra is not None:
-            s.add(extra)
-        t0 = time.time()
-        r = s.check()
-        self.res.solver_calls += 1
-        self.res.solver_time += time.time() - t0
-        if r == z3.sat:
+        r, m = self.solve_raw(st.pc, extra)
+        if r == 'sat':
             if extra is None or want_model:
-                st.model = s.model()
-            self._last_model = s.model()
-            return 'sat'
-        if r == z3.unsat:
-            return 'unsat'
-        return 'unknown'
+                st.model = m
+            self._last_model = m
+        return r
 
     def add_pc(self, st, c):
         if isinstance(c, bool):
@@ -532,16 +581,41 @@ class Exec:
         if isinstance(cond, bool):
             return [(st, cond)]
         ncond = z3.Not(cond)
-        rt = self.sat(st, cond)
-        if rt == 'unsat':
-            return [(st, False)]   # pc implies not cond
-        rf = self.sat(st, ncond)
-        if rf == 'unsat':
-            return [(st, True)]
+        known = None
+        if st.model is not None:
+            try:
+                v = st.model.eval(cond, model_completion=True)
+                if z3.is_true(v):
+                    known = True
+                elif z3.is_false(v):
+                    known = False
+            except z3.Z3Exception:
+                known = None
+        if known is None:
+            rt, mt = self.solve_raw(st.pc, cond)
+            if rt == 'unsat':
+                return [(st, False)]
+            rf, mf = self.solve_raw(st.pc, ncond)
+            if rf == 'unsat':
+                if mt is not None:
+                    st.model = mt
+                return [(st, True)]
+        elif known:
+            mt = st.model
+            rf, mf = self.solve_raw(st.pc, ncond)
+            if rf == 'unsat':
+                return [(st, True)]
+        else:
+            mf = st.model
+            rt, mt = self.solve_raw(st.pc, cond)
+            if rt == 'unsat':
+                return [(st, False)]
         self.res.forks += 1
         st2 = st.fork()
-        self.add_pc(st, cond)
-        self.add_pc(st2, ncond)
+        st.pc.append(cond)
+        st.model = mt
+        st2.pc.append(ncond)
+        st2.model = mf
         return [(st, True), (st2, False)]
 
     def concretize(self, st, t, what='value', limit=None):
